@@ -223,7 +223,10 @@ class TrainingModel(L.LightningModule):
         )
 
         scheduler = None
-        for k, v in self.trainer_config.lr_scheduler.items():
+        lr_scheduler_config = self.trainer_config.lr_scheduler
+        if lr_scheduler_config is None:
+            lr_scheduler_config = {}
+        for k, v in lr_scheduler_config.items():
             if v is not None:
                 if k == "step_lr":
                     scheduler = torch.optim.lr_scheduler.StepLR(
